@@ -8,4 +8,6 @@ CONSTANTS
   Routes = {"inst"}
   Layouts = {"flat"}
   Slim = FALSE
+  HistKinds = {}
+  MaxLookups = 0
 CHECK_DEADLOCK FALSE
